@@ -351,7 +351,10 @@ def _small_trees(ns):
            A(B(1), B(1)), A(shared, shared), [shared, shared, B(1)], A(lst, lst), {'k': B(3), 'j': [B(4), {'z': B(5)}]},
            (B(6), (B(7),)), A(A(B(8), [B(9), (B(10), None)]), {'a': None, 'b': None}), [[[[B(11)]]], [B(12), [B(13)]]],
            A([A(None, E()), A(None, E())], E()), [1, 1, 1, 'x', 'x'], A({'p': shared}, [shared]),
-           [{'a': B(i)} for i in range(6)], {'d%d' % i: {'e': B(20 + i)} for i in range(6)}]
+           [{'a': B(i)} for i in range(6)], {'d%d' % i: {'e': B(20 + i)} for i in range(6)},
+           # many dicts holding objects: a walk that keys temporaries by id() meets recycled addresses here
+           [{'a': B(100 + i)} for i in range(40)], {'d%d' % i: {'e': B(200 + i)} for i in range(40)},
+           [B({'k': B(300 + i), 'j': B(-i)}) for i in range(40)]]
     return out
 
 
